@@ -19,7 +19,7 @@ LOOPPROOF = """            proof {
             }"""
 EXEC = [
   F('ExprAST::exec', spec=AG + "\n        decreases self, 1int,"),
-  F('ExprAST::exec_literal', spec="        requires *self == ExprAST::Literal(literal),\n        ensures r matches Ok(v) && vv(v) == lit_sv(literal),"),
+  F('ExprAST::exec_literal', props=['C03', 'C09'], spec="        requires *self == ExprAST::Literal(literal),\n        ensures r matches Ok(v) && vv(v) == lit_sv(literal),"),
   F('ExprAST::exec_reference', spec="        requires *self == ExprAST::Reference(name),\n        ensures agrees(r, ctx@, sem(*self, ctx@)),"),
   F('ExprAST::exec_function',
     spec="        requires self matches ExprAST::Function(n, args) && n == name && vec_cloned(*args, exprs),\n" + AG + "\n        decreases self, 0int,",
